@@ -404,7 +404,22 @@ def _once_candidate(loop: ast.While, prev: ast.Assign, flags: set[str], res: dic
     v, E = prev.targets[0].id, prev.value          # type: ignore[attr-defined]
     enames = {x.id for x in ast.walk(E) if isinstance(x, ast.Name)}
     from ..syn import const_int, incr_of
+    # `w = v + k` (k > 0) ... `v = w`: v grows through a temporary, provided that is the only store to v in the loop
+    v_stores = [n for n in ast.walk(loop) if isinstance(n, (ast.Assign, ast.AugAssign)) and any(
+        isinstance(x, ast.Name) and x.id == v and isinstance(x.ctx, ast.Store) for t in (n.targets if isinstance(n, ast.Assign) else [n.target]) for x in ast.walk(t))]
+    via_temp: set[int] = set()
+    if len(v_stores) == 1 and isinstance(v_stores[0], ast.Assign) and len(v_stores[0].targets) == 1 and isinstance(v_stores[0].value, ast.Name):
+        w = v_stores[0].value.id
+        wdefs = [n for n in ast.walk(loop) if isinstance(n, (ast.Assign, ast.AugAssign, ast.For, ast.comprehension, ast.NamedExpr)) and any(
+            isinstance(x, ast.Name) and x.id == w and isinstance(x.ctx, ast.Store) for x in ast.walk(
+                n.targets[0] if isinstance(n, ast.Assign) and len(n.targets) == 1 else getattr(n, "target", n)))]
+        if wdefs and all(isinstance(d_, ast.Assign) and len(d_.targets) == 1 and isinstance(d_.targets[0], ast.Name) and isinstance(d_.value, ast.BinOp)
+                         and isinstance(d_.value.op, ast.Add) and isinstance(d_.value.left, ast.Name) and d_.value.left.id == v
+                         and (const_int(d_.value.right) or 0) > 0 for d_ in wdefs):
+            via_temp.add(id(v_stores[0]))
     for n in ast.walk(loop):
+        if id(n) in via_temp:
+            continue
         inc = incr_of(n) if isinstance(n, (ast.Assign, ast.AugAssign)) else None
         if inc is not None and inc[0] == v:
             k = const_int(inc[1])
